@@ -24,8 +24,8 @@ def programs(tier, rng):
                       "model": model, "outs": outs, "params": params})
 
     thorough = tier == "thorough"
-    ns = [1, 2, 3, 5] + ([4, 6, 8, 13] if thorough else [])
-    rnd_n = sorted({rng.randint(1, 40) for _ in range(2 if not thorough else 8)})
+    ns = [1, 3, 5] + ([2, 4, 6, 8, 13] if thorough else [])
+    rnd_n = sorted({rng.randint(1, 40) for _ in range(1 if not thorough else 8)})
     for n in ns + rnd_n:
         for ty in (["int", "float"] if n in (3, 5) or thorough else ["int"]):
             add("get_c", f"@guppy\ndef FN(xs: array[{ty}, {n}], i: int) -> {ty}:\n    return xs[i]\n",
@@ -37,10 +37,10 @@ def programs(tier, rng):
         for c in sorted({0, n - 1, n, -1} if n in (3, 5) or thorough else {n - 1}):
             add("get_c", f"@guppy\ndef FN(xs: array[int, {n}]) -> int:\n    return xs[{c}]\n",
                 f"(IOp (OConst (CInt ({c})%Z)) [] :: seq_get_classical {n})", "outs_get_classical", n=n, ty="int", index=c)
-        for g in (["h", "x"] if n in (2, 5) or thorough else ["h"]):
+        for g in (["h", "x"] if n == 5 or thorough else ["h"]):
             add("use1", f"@guppy\ndef FN(qs: array[qubit, {n}], i: int) -> None:\n    {g}(qs[i])\n",
                 f'seq_use1 {n} "{g.upper()}"', "outs_use1", n=n, gate=g)
-        for g in (["cx", "cz"] if n in (2, 5) or thorough else ["cx"]):
+        for g in (["cx", "cz"] if n == 5 or thorough else ["cx"]):
             add("use2", f"@guppy\ndef FN(qs: array[qubit, {n}], i: int, j: int) -> None:\n    {g}(qs[i], qs[j])\n",
                 f'seq_use2 {n} "{g.upper()}"', "outs_use2", n=n, gate=g)
         add("copy", f"@guppy\ndef FN(xs: array[int, {n}]) -> array[int, {n}]:\n    return xs.copy()\n",
@@ -263,8 +263,11 @@ def enc_ok(vals):
 PANIC = "panic"
 
 
-def indices(n):
-    return sorted({-M63, -n - 1, -n, -1, 0, n // 2, n - 1, n, n + 1, M63 - 1} | set(range(min(n, 4))))
+def indices(n, thorough=True):
+    base = {-M63, -n, -1, 0, n - 1, n, M63 - 1} | set(range(min(n, 3)))
+    if thorough:
+        base |= {-n - 1, n // 2, n + 1, -M63 + 1, M63 - 2} | set(range(min(n, 6)))
+    return sorted(base)
 
 
 def in_range(n, i):
@@ -333,7 +336,7 @@ def grid(family, params, rng, thorough):
         lent[rng.randrange(n)] = None
         arrays.append(lent)
     out = []
-    idx = indices(n)
+    idx = indices(n, thorough)
     if family == "get_c":
         for a in arrays:
             for i in (idx if params["index"] == "var" else [None]):
@@ -348,8 +351,8 @@ def grid(family, params, rng, thorough):
                 out.append([("arr", a), ("int", i)])
     elif family == "use2":
         pairs = [(i, j) for i in idx for j in idx]
-        if not thorough and len(pairs) > 60:
-            pairs = [(i, i) for i in idx] + rng.sample(pairs, 45)
+        if not thorough and len(pairs) > 40:
+            pairs = [(i, i) for i in idx] + rng.sample(pairs, 25)
         for a in arrays:
             for i, j in pairs:
                 out.append([("arr", a), ("int", i), ("int", j)])
